@@ -52,6 +52,8 @@ TUNINGS = {
     "a05": (0.5, 2.0, None),              # W0 = -7
     "a01": (0.1, 2.0, None),              # W0 = -199
     "a1k0": (1.0, 0.0, 0.0),              # W0 = 0
+    "a1e4": (1.0e-4, 2.0, None),          # W0 ~ -2.0e8: 2-norm-normalised weights sum to ~5e-9
+    "a1e5": (1.0e-5, 2.0, None),          # W0 ~ -2.0e10
 }
 EPOCH = datetime(2021, 3, 30, 16, 0, 0)
 DT_PRED = 60.0
@@ -60,6 +62,9 @@ EST_P0 = np.diagflat([1.0, 2.0, 1.0, 1e-6, 1e-6, 2e-6])
 Q0 = 1e-10 * np.eye(6)
 SIGMAS = {"az": 1e-3, "el": 1.5e-3, "rng": 0.1, "rr": 1e-3}
 LABEL = {"az": "azimuth_rad", "el": "elevation_rad", "rng": "range_km", "rr": "range_rate_km_p_sec"}
+# sensors of one type (same sensor_type string) differ in their noise: R is scaled per sensor id
+SENSOR_TYPE = {"azel": "Optical", "elaz": "Optical", "az": "Optical", "radar": "Radar", "rngaz": "Radar",
+               "elrr": "Radar", "rng": "Radar"}
 KIND_COMPS = {"azel": ("az", "el"), "radar": ("az", "el", "rng", "rr"), "rngaz": ("rng", "az"),
               "elrr": ("el", "rr"), "elaz": ("el", "az"), "rng": ("rng",), "az": ("az",)}
 DELTA_PLACE = 1.0e-6      # rad: sub-tick placement of the predicted azimuth next to a seam
@@ -193,25 +198,47 @@ class Scene:
                 types.append(RangeRate())
                 v = float(RangeRate().calculate(sen, self.centre, self.date)) + EPS_MEAS["rr"] * scale
             vals[LABEL[comp]] = v
-        r = np.diagflat([SIGMAS[c] ** 2 for c in comps])
+        r = np.diagflat([(SIGMAS[c] * sigma_scale(sid)) ** 2 for c in comps])
         meas = Measurement(types, r)
-        return Observation(julian_date=self.jd, target_id=10001, sensor_id=sid, sensor_type="Radar",
+        return Observation(julian_date=self.jd, target_id=10001, sensor_id=sid, sensor_type=SENSOR_TYPE[o["kind"]],
                            sensor_eci=sen, measurement=meas, **vals)
 
     def update(self, stack: list, hist=()) -> dict:
         """Run the REAL update() on a copy of the predicted filter; project the result.  With `hist`
-        the SAME filter instance first performs the updates of the earlier stacks (same prior)."""
-        f = copy.deepcopy(self.filter)
-        for h in hist:
-            f.update([self.observation(o) for o in h])
+        the SAME filter instance first performs the updates of the earlier stacks (same prior).
+        Whatever the real filter raises on these legal calls, or while its outputs are read, comes
+        back as RealCodeRaised (a finding about the implementation, never a driver crash)."""
+        obs_h = [[self.observation(o) for o in h] for h in hist]
         obs = [self.observation(o) for o in stack]
-        f.update(obs)
-        ids = [o["id"] for o in stack]
-        comps = [(o["id"], c, comp) for o in stack for c, comp in enumerate(KIND_COMPS[o["kind"]])]
-        return {"est_x": np.array(f.est_x, dtype=float), "est_p": np.array(f.est_p, dtype=float),
-                "innovation": np.array(f.innovation, dtype=float), "is_angular": np.array(f.is_angular, dtype=bool),
-                "comps": comps, "ids": ids, "mean_pred_y": np.array(f.mean_pred_y, dtype=float),
-                "true_y": np.array(f.true_y, dtype=float), "nis": float(f.nis)}
+        f = copy.deepcopy(self.filter)
+        try:
+            for oh in obs_h:
+                f.update(oh)
+            f.update(obs)
+            comps = [(o["id"], c, comp) for o in stack for c, comp in enumerate(KIND_COMPS[o["kind"]])]
+            res = {"est_x": np.array(f.est_x, dtype=float), "est_p": np.array(f.est_p, dtype=float),
+                   "innovation": np.array(f.innovation, dtype=float), "is_angular": np.array(f.is_angular, dtype=bool),
+                   "comps": comps, "ids": [o["id"] for o in stack], "mean_pred_y": np.array(f.mean_pred_y, dtype=float),
+                   "true_y": np.array(f.true_y, dtype=float), "nis": float(f.nis)}
+            m = len(comps)
+            if res["est_x"].shape != (6,) or res["est_p"].shape != (6, 6) or res["innovation"].shape != (m,) \
+                    or res["is_angular"].shape != (m,):
+                raise ValueError(f"update() left outputs of unexpected shape: est_x {res['est_x'].shape}, est_p "
+                                 f"{res['est_p'].shape}, innovation {res['innovation'].shape}, is_angular {res['is_angular'].shape}")
+            return res
+        except Exception as ex:  # noqa: BLE001
+            import traceback
+            raise RealCodeRaised(type(ex).__name__, str(ex), traceback.format_exc()[-1200:]) from None
+
+
+class RealCodeRaised(Exception):
+    def __init__(self, cls: str, msg: str, tb: str):
+        super().__init__(f"{cls}: {msg}")
+        self.cls, self.msg, self.tb = cls, msg, tb
+
+
+def sigma_scale(sid: int) -> float:
+    return 0.5 + 0.5 * sid          # sensor 1: nominal sigmas, sensor 4: 2.5 x
 
 
 def represent(base: float, k: int, s: str) -> float:
